@@ -120,6 +120,9 @@ fn gen(seed: u64) -> Params {
     p
 }
 
+/// the poller is inside `poll` (a bottom half is run by the poller, inside poll or inside the
+/// drain of Cqueue::drop)
+static IN_POLL: std::sync::atomic::AtomicBool = std::sync::atomic::AtomicBool::new(false);
 static OWNER_STARTED: std::sync::atomic::AtomicBool = std::sync::atomic::AtomicBool::new(false);
 static OWNER_LEAVING: std::sync::atomic::AtomicBool = std::sync::atomic::AtomicBool::new(false);
 
@@ -142,6 +145,14 @@ fn spawn_owner_canceller(owner: &Actor, aimed: bool, at: u32) -> Actor {
             engine::yield_point();
         }
         unsafe { co.cancel() };
+        // every other controller cancels a second time a little later: inside Cqueue::drop the
+        // owner waits with its cancel disabled and every further cancel is a spurious wake-up
+        if at % 2 == 1 {
+            for _ in 0..(at % 23) {
+                engine::yield_point();
+            }
+            unsafe { co.cancel() };
+        }
     })
 }
 
@@ -197,6 +208,14 @@ pub fn run_cqueue(seed: u64, mut ov: impl FnMut(&mut engine::Cfg)) -> ! {
                                 TOP[i][e].fetch_add(1, Ordering::Relaxed);
                                 es.send(e);
                                 // ---- bottom half
+                                // it is the poller that runs it: inside a poll, or inside the drain
+                                // when the scope is left (also when it is left by a panic)
+                                if !IN_POLL.load(Ordering::Relaxed) && !OWNER_LEAVING.load(Ordering::Relaxed) {
+                                    violation(&format!(
+                                        "arm {} event {}: send() returned and the bottom half runs although the poller is neither inside poll() nor draining: the event was never queued / consumed",
+                                        i, e
+                                    ));
+                                }
                                 if TOP[i][e].load(Ordering::Relaxed) != 1 {
                                     violation(&format!("arm {} event {}: bottom half runs without exactly one top half", i, e));
                                 }
@@ -230,7 +249,9 @@ pub fn run_cqueue(seed: u64, mut ov: impl FnMut(&mut engine::Cfg)) -> ! {
                     }
                     polls += 1;
                     let t0 = engine::now();
+                    IN_POLL.store(true, Ordering::Relaxed);
                     let r = cq.poll(poll_timeout.map(Duration::from_nanos));
+                    IN_POLL.store(false, Ordering::Relaxed);
                     let t1 = engine::now();
                     match r {
                         Ok(ev) => {
